@@ -40,6 +40,16 @@ def parseOp (ws : List String) (coroMode : Bool) (ncoros : Nat) : Option Op :=
       let i ← n i; let me ← n me
       if coroMode && me == driverId then pure (Op.ctorH i me) else none
   | ["pop", i] => (n i).map Op.pop
+  | ["delx", i] => (n i).map Op.dtor        -- destroyed during stack unwinding: the same step as plain destruction
+  | ["clearx", i] => (n i).map Op.clear     -- moved into a local that is destroyed during stack unwinding
+  | "csp" :: i :: hs => do
+      let i ← n i
+      let hs ← hs.mapM (fun h => (n h).bind hOk)
+      pure (Op.create i hs none)
+  | "cspv" :: i :: v :: hs => do
+      let i ← n i; let v ← n v
+      let hs ← hs.mapM (fun h => (n h).bind hOk)
+      pure (Op.create i hs (some v))
   | ["clear", i] => (n i).map Op.clear
   | ["del", i] => (n i).map Op.dtor
   | ["await", i, me] => do
